@@ -14,6 +14,7 @@ import (
 	"io"
 	"math/rand"
 	"os"
+	"os/exec"
 	"path/filepath"
 	"sort"
 	"strings"
@@ -671,6 +672,43 @@ func emitObs(w *caseWriter, o *pkgObs) {
 	}
 }
 
+// dpkgDebAccepts: the reference reader's verdict on a .deb (C04 names it): dpkg-deb must list the control information and
+// unpack the file system archive to its end. Skipped (and counted) where dpkg-deb is not installed.
+var dpkgDebRuns, dpkgDebMissing int
+
+func dpkgDebAccepts(o *pkgObs, raw []byte) {
+	exe, err := exec.LookPath("dpkg-deb")
+	if err != nil {
+		dpkgDebMissing++
+		return
+	}
+	f, err := os.CreateTemp("", "c04-*.deb")
+	if err != nil {
+		return
+	}
+	defer os.Remove(f.Name())
+	f.Write(raw)
+	f.Close()
+	dpkgDebRuns++
+	info := exec.Command(exe, "--info", f.Name())
+	info.Env = append(os.Environ(), "LC_ALL=C")
+	out1, err1 := info.CombinedOutput()
+	fsys := exec.Command(exe, "--fsys-tarfile", f.Name())
+	fsys.Env = append(os.Environ(), "LC_ALL=C")
+	var errb bytes.Buffer
+	fsys.Stderr = &errb
+	fsys.Stdout = io.Discard
+	err2 := fsys.Run()
+	o.Struct["dpkg_deb_reads_control_information"] = err1 == nil
+	o.Struct["dpkg_deb_unpacks_file_system_archive"] = err2 == nil
+	if err1 != nil {
+		o.Notes = append(o.Notes, "dpkg-deb --info: "+strings.TrimSpace(string(out1)))
+	}
+	if err2 != nil {
+		o.Notes = append(o.Notes, "dpkg-deb --fsys-tarfile: "+strings.TrimSpace(errb.String()))
+	}
+}
+
 // emitCpio: set for C04 runs only (the other properties sharing this emitter do not need the bytes)
 var emitCpio bool
 
@@ -783,6 +821,9 @@ func runPkgCase(w *caseWriter, id string, d pkgDesc, st *pkgStats, extra func(w 
 		}
 		w.line("impl ok")
 		w.line("rawlen %d", len(raw))
+		if emitCpio && format == "deb" {
+			dpkgDebAccepts(o, raw)
+		}
 		if emitCpio && (format == "deb" || format == "rpm") && len(raw) <= 65536 {
 			w.line("pkgbytes %s", xs(string(raw)))
 		}
@@ -974,7 +1015,7 @@ func cmdPkg(prop, tier string, seed int64, out, statsOut, replay string) {
 		}
 	}
 	w.close()
-	writeJSON(statsOut, statsJSON(st, nil))
+	writeJSON(statsOut, statsJSON(st, map[string]any{"dpkg_deb_runs": dpkgDebRuns, "dpkg_deb_not_installed": dpkgDebMissing}))
 }
 
 var _ = io.EOF
